@@ -273,7 +273,10 @@ fn gen_case(rng: &mut Rng, root: &str) -> ImportCase {
     let via_mid = rng.chance(0.3);
     let importer_sass = rng.chance(0.25);
     let importer_ext = if importer_sass { "sass" } else { "scss" };
-    let importer_rel = if dir.is_empty() { format!("imp.{}", importer_ext) } else { format!("{}/imp.{}", dir, importer_ext) };
+    // sometimes the importing file is itself an index file (a/imp/index.scss, reached as "a/imp"):
+    // the search for the URL under test then starts in a/imp/
+    let as_index = dir == "a" && rng.chance(0.3);
+    let importer_rel = if as_index { format!("a/imp/index.{}", importer_ext) } else if dir.is_empty() { format!("imp.{}", importer_ext) } else { format!("{}/imp.{}", dir, importer_ext) };
     let importer = join(root, &importer_rel);
     let mut extra_urls = vec![];
     let mut files: Vec<(String, Vec<u8>)> = vec![];
@@ -294,6 +297,9 @@ fn gen_case(rng: &mut Rng, root: &str) -> ImportCase {
         // search for the URL under test must start in the importer's own directory
         let entry = join(root, "main.scss");
         let mut mid_url = importer_rel.trim_end_matches(".scss").trim_end_matches(".sass").to_string();
+        if as_index {
+            mid_url = "a/imp".to_string();
+        }
         if dir == "lp1" && rng.chance(0.7) {
             // found through the load path `lp1`, by its bare name
             if !lps.iter().any(|l| normalize(root, l) == join(root, "lp1")) {
@@ -326,6 +332,12 @@ fn gen_case(rng: &mut Rng, root: &str) -> ImportCase {
             let stem = &p[..p.len() - ext.len() - 1];
             levels.push(exact_names(&format!("{}.import.{}", stem, ext)));
             levels.push(exact_names(&p));
+            // what an implementation that does not take the URL literally would pick:
+            // another extension for the same stem, an extension appended once more, an index file
+            if rng.chance(0.5) {
+                let other = if ext == "scss" { "sass" } else { "scss" };
+                levels.push(vec![format!("{}.{}", stem, other), format!("{}.scss", p), join(&p, "index.scss"), join(stem, "index.scss")]);
+            }
         } else {
             for stem in [p.clone(), join(&p, "index")] {
                 let mut sassy_io = exact_names(&format!("{}.import.sass", stem));
